@@ -200,8 +200,14 @@ def value(rng, dp, role="coord"):
             x = np.float64(rng.uniform(-500, 500))
         elif m < 0.95:
             x = np.int64(rng.randint(-10 ** 6, 10 ** 6)) if role == "any" else rng.randint(0, 10 ** 6)
-        else:
+        elif m < 0.975:
             x = np.float32(rng.uniform(-500, 500)) if role == "any" else rng.uniform(0, 1e4)
+        else:
+            # narrow numpy floats with tiny / huge magnitudes (their str() uses exponent notation)
+            x = (rng.choice([np.float32, np.float16])(rng.choice([5e-5, -2e-5, 3.5e-7, 6e4, 1e-3])) if role == "any"
+                 else rng.uniform(0, 1e4))
+            if role == "any" and rng.random() < 0.3:
+                x = np.float32(rng.choice([2e16, -3e20, 1.5e-30]))
         if role == "pos":
             x = abs(x)
             if F.scalar_kind(x) == "int" and not isinstance(x, int):
